@@ -24,6 +24,9 @@ CORPUS = [
     "typedef struct _m { uint8 q; uint16 r; } m1, m2, m3;",
     "struct tag { uint8 z; } v1, v2;\nstruct usev { v1 a; v2 b; tag c; };",
     "typedef union _n { uint16 w; uint8 h[2]; } n1, n2;",
+    "typedef struct { uint8 k; uint16 l; } rec_t;\nstruct user { rec_t r; };",
+    "struct { uint8 z; uint16 q; } point;\nstruct usep { point p; };",
+    "typedef union { uint8 k; uint16 l; } un_t;\nstruct useu { un_t u; uint8 t; };",
 ]
 UNITS = [
     "struct un1 { uint8 a; uint16 b; };",
